@@ -2,15 +2,13 @@
 //!
 //! The VO-bit table of a 4 KiB data window (64 metadata bytes, symbolic) is relocated into a harness buffer.
 //! `is_vo_bit_set_for_addr` is checked for every word-aligned address of the window; `find_object_from_internal_pointer`
-//! is checked MODULARLY (the byte-scanning loop replaced by its contract, see c22_search.rs) for every pointer of the
-//! window, every search limit 8..=64 bytes (the debug cross-check walks the range region by region) and a symbolic
-//! object size. Space dispatch (SFT), LOS's page-wise lookup and addresses outside mapped memory are not covered.
+//! is checked MODULARLY (find_prev_non_zero_value replaced by its contract, which C22 discharges) for every pointer of
+//! the window, every search limit 8..=64 bytes and a symbolic object size. Space dispatch (SFT), LOS's page-wise lookup and addresses outside mapped memory are not covered.
 use crate::mmapper::*;
 use crate::side::*;
 use crate::vm::{ctl, KVM0};
 use mmtk::verif_hooks::side_layout::spec_defs::VO_BIT as VO_BIT_SIDE_METADATA_SPEC;
 use mmtk::util::Address;
-use mmtk::verif_hooks::side_helpers::FindMetaBitResult;
 use mmtk::verif_hooks::vo_bit as vo;
 
 const MW: usize = 64;
@@ -24,24 +22,27 @@ unsafe fn mbit(p: usize) -> bool {
     let b = *((W_BASE + p / 8) as *const u8);
     (b >> (p % 8)) & 1 == 1
 }
-/// Contract of find_last_non_zero_bit_in_metadata_bytes instantiated at the witness bit (see c22_search.rs).
-fn contract_find_last_in_bytes(start: Address, end: Address) -> FindMetaBitResult {
-    unsafe {
-        let (s, e) = (start.as_usize(), end.as_usize());
-        assert!(s <= e && s >= W_BASE && e <= W_BASE + MW, "C08.modular.byte_scanner_called_on_a_range_inside_the_table");
-        let w_in = W_BIT >= 8 * (s - W_BASE) && W_BIT < 8 * (e - W_BASE);
-        if kani::any() {
-            let a: usize = kani::any();
-            let bit: u8 = kani::any();
-            kani::assume(a >= s && a < e && bit < 8);
-            let p = 8 * (a - W_BASE) + bit as usize;
-            kani::assume(mbit(p));
-            kani::assume(!(w_in && W_BIT > p && mbit(W_BIT)));
-            FindMetaBitResult::Found { addr: Address::from_usize(a), bit }
-        } else {
-            kani::assume(!(w_in && mbit(W_BIT)));
-            FindMetaBitResult::NotFound
-        }
+static mut D0: usize = 0;
+
+/// Contract of `SideMetadataSpec::find_prev_non_zero_value` (for the VO-bit spec) instantiated at the witness word
+/// W_BIT: the result is the first non-zero region met walking down from data_addr's region while the region start is
+/// >= data_addr - limit + 1; None iff there is none. C22 discharges this specification for the fast path (modular,
+/// 64-byte table window), for the region-by-region path (<= 10 regions) and hence for their debug cross-check.
+unsafe fn contract_find_prev(_spec: &mmtk::util::metadata::side_metadata::SideMetadataSpec, data_addr: Address, limit: usize) -> Option<Address> {
+    let p = data_addr.as_usize();
+    assert!(limit > 0 && p >= D0 + 64 && p < D0 + 8 * 8 * MW, "C08.modular.find_prev_called_inside_the_window");
+    let lowest = p - (limit - 1).min(p);
+    let kp = (p - D0) / 8;
+    let w_in = W_BIT <= kp && D0 + 8 * W_BIT >= lowest;
+    if kani::any() {
+        let q: usize = kani::any();
+        kani::assume(q <= kp && D0 + 8 * q >= lowest && D0 + 8 * q >= D0);
+        kani::assume(mbit(q));
+        kani::assume(!(w_in && W_BIT > q && mbit(W_BIT)));
+        Some(Address::from_usize(D0 + 8 * q))
+    } else {
+        kani::assume(!(w_in && mbit(W_BIT)));
+        None
     }
 }
 
@@ -55,6 +56,7 @@ fn place(buf: &mut Bytes<MW>) -> usize {
     unsafe {
         BASE = buf_addr - spec.offset - w0 / 8;
         W_BASE = buf_addr;
+        D0 = w0 << 3;
     }
     w0 << 3
 }
@@ -82,7 +84,9 @@ fn c08_is_vo_bit_set_for_addr() {
         }
         None => assert!(!bitb(&img, k), "C08.is_vo_bit_set_for_addr.none_only_if_bit_clear"),
     }
-    assert!(buf.0 == img, "C08.is_vo_bit_set_for_addr.does_not_write");
+    let i: usize = kani::any();
+    kani::assume(i < MW);
+    assert!(buf.0[i] == img[i], "C08.is_vo_bit_set_for_addr.does_not_write");
     std::mem::forget(buf);
 }
 
@@ -92,7 +96,7 @@ fn c08_is_vo_bit_set_for_addr() {
 #[kani::unwind(12)]
 #[kani::stub(mmtk::util::metadata::side_metadata::global_side_metadata_base_address, stub_base)]
 #[kani::stub(mmtk::util::heap::layout::create_mmapper, stub_create_mmapper)]
-#[kani::stub(mmtk::util::metadata::side_metadata::helpers::find_last_non_zero_bit_in_metadata_bytes, contract_find_last_in_bytes)]
+#[kani::stub(mmtk::util::metadata::side_metadata::SideMetadataSpec::find_prev_non_zero_value, contract_find_prev)]
 fn c08_find_object_from_internal_pointer() {
     let mut buf = Bytes::<MW>(kani::any());
     let img = buf.0;
@@ -126,16 +130,13 @@ fn c08_find_object_from_internal_pointer() {
             if j_in && bitb(&img, j) {
                 // j is a valid object in range: then the nearest one (at or above j) must fail the size test,
                 // in particular j itself cannot both be the nearest and contain p
-                let nearest_is_j = {
-                    // witness-relative: if j were the nearest, p < j + size would have produced Some
-                    true
-                };
-                let _ = nearest_is_j;
                 assert!(!(d0 + 8 * j + size > p && !higher_set(&img, j, kp)), "C08.find_object.none_only_if_no_object_in_range_contains_p");
             }
         }
     }
-    assert!(buf.0 == img, "C08.find_object.does_not_write");
+    let i: usize = kani::any();
+    kani::assume(i < MW);
+    assert!(buf.0[i] == img[i], "C08.find_object.does_not_write");
     kani::cover!(r.is_some() && r.unwrap().to_raw_address().as_usize() + 40 <= p, "C08.cover.interior_pointer_far_inside_object");
     kani::cover!(r.is_none() && j_in && bitb(&img, j), "C08.cover.object_too_small_to_contain_p");
     kani::cover!(r.is_some() && r.unwrap().to_raw_address().as_usize() == p, "C08.cover.exact_reference");
